@@ -132,6 +132,18 @@ let rec body lines =
            let r = for_point (match cd.enc x with Some v -> v | None -> N0) !t in
            emit (String.concat " " ("o" :: List.map string_of_n r));
            if not !folding then stat (Printf.sprintf "@q %d %d" (List.length r) (size !t |> int_of_nat))
+         | (["qn"; mode; lb; _] | ["pn"; mode; lb]) as ws when (mode = "pt" || mode = "rg")
+                                   && List.for_all (fun x -> cd.enc x <> None) (List.tl (List.tl ws)) ->
+           (* the model is a pure function: a query run from inside a callback is an independent query *)
+           let get s = (match cd.enc s with Some v -> v | None -> N0) in
+           let a = get lb in
+           let b = (match ws with ["qn"; _; _; ub] -> get ub | _ -> a) in
+           let hits = for_overlaps_nodes a b !t in
+           emit (String.concat " " ("o" :: List.map (fun e -> string_of_n (iid e)) hits));
+           List.iter (fun e ->
+             let r = if mode = "rg" then for_overlaps (ilo e) (ihi e) !t else for_point (ilo e) !t in
+             emit (String.concat " " (("in " ^ string_of_n (iid e) ^ " :") :: List.map string_of_n r))) hits;
+           stat "@qnested"
          | ["qm"; mode; lb; ub] when List.mem mode ["co"; "cu"; "ga"] && cd.enc lb <> None && cd.enc ub <> None ->
            (* the model: the bounds are read once at the call; what the callback does to the caller's variables is irrelevant *)
            let get o = (match o with Some v -> v | None -> N0) in
